@@ -281,6 +281,8 @@ func fillPayload(dst []byte, id int) {
 }
 
 func (r *e1Run) newCall(task, idx int, op E1Op) *e1Call {
+	r.mu.Lock()
+	defer r.mu.Unlock()
 	c := &e1Call{ID: len(r.calls) + 1, Task: task, Idx: idx, Op: op}
 	r.calls = append(r.calls, c)
 	r.byID[c.ID] = c
@@ -585,13 +587,16 @@ func (r *e1Run) onStep() {
 		}
 		// accepted-but-unsent bound (C18)
 		okCalls := 0
-		for _, c := range r.calls {
+		r.mu.Lock()
+		calls := append([]*e1Call(nil), r.calls...)
+		r.mu.Unlock()
+		for _, c := range calls {
 			if isWriteOp(c.Op.Op) && c.Op.Op != "readfrom" && c.Op.Op != "write" && c.ok() {
 				okCalls++
 			}
 		}
 		written := 0
-		for _, ev := range r.tr.Events {
+		for _, ev := range r.tr.EventsCopy() {
 			if ev.Kind == "writev" && !ev.Rejected && ev.EndSeq != 0 {
 				written += ev.Segs
 			}
